@@ -111,6 +111,11 @@ func c07Catalogue() []Case {
 	out = append(out, Case{Prof: "c07", Keys: []string{"x"}, Epilogue: true, Note: "committer vs autocommit writer",
 		Prologue: []COp{{K: "set", Key: 0, Len: 1}, {K: "begin", Slot: 1, Lvl: 2}, {K: "set", Slot: 1, Key: 0, Len: 2}},
 		Clients:  [][]COp{{{K: "commit", Slot: 1}}, {{K: "set", Key: 0, Len: 3}}}})
+	// three parties: an autocommit writer, a snapshot transaction that begins, writes and commits
+	// concurrently, and the commit of an older snapshot transaction - all on one key
+	out = append(out, Case{Prof: "c07", Keys: []string{"x"}, Epilogue: true, Deep: true, Note: "writer || begin+write+commit || older committer",
+		Prologue: []COp{{K: "begin", Slot: 1, Lvl: 2}, {K: "set", Slot: 1, Key: 0, Len: 1}},
+		Clients:  [][]COp{{{K: "set", Key: 0, Len: 2}}, {{K: "begin", Slot: 2, Lvl: 2}, {K: "set", Slot: 2, Key: 0, Len: 3}, {K: "commit", Slot: 2}}, {{K: "commit", Slot: 1}}}})
 	// three committers on one key
 	out = append(out, Case{Prof: "c07", Keys: []string{"x"}, Epilogue: true, Note: "3 committers",
 		Prologue: []COp{{K: "begin", Slot: 1, Lvl: 2}, {K: "begin", Slot: 2, Lvl: 2}, {K: "begin", Slot: 3, Lvl: 3},
@@ -161,8 +166,16 @@ func genC07(t *rapid.T) Case {
 			c.Prologue = append(c.Prologue, COp{K: "set", Key: k, Len: rapid.IntRange(0, 9).Draw(t, "len")})
 		}
 	}
+	late := map[int]bool{} // transactions that begin (and write) inside their client's script
 	for s := 1; s <= ntx; s++ {
-		c.Prologue = append(c.Prologue, COp{K: "begin", Slot: s, Lvl: rapid.SampledFrom([]int{2, 3, 2, 3, 1}).Draw(t, "lvl")})
+		lvl := rapid.SampledFrom([]int{2, 3, 2, 3, 1}).Draw(t, "lvl")
+		if s > 1 && rapid.IntRange(0, 2).Draw(t, "lateBegin") == 0 {
+			late[s] = true
+			c.Clients = append(c.Clients, []COp{{K: "begin", Slot: s, Lvl: lvl}})
+		} else {
+			c.Prologue = append(c.Prologue, COp{K: "begin", Slot: s, Lvl: lvl})
+			c.Clients = append(c.Clients, nil)
+		}
 	}
 	for s := 1; s <= ntx; s++ {
 		nw := rapid.IntRange(1, 2).Draw(t, "nwrites")
@@ -171,19 +184,23 @@ func genC07(t *rapid.T) Case {
 			if rapid.IntRange(0, 4).Draw(t, "del") == 0 {
 				k = "del"
 			}
-			c.Prologue = append(c.Prologue, COp{K: k, Slot: s, Key: rapid.IntRange(0, nk-1).Draw(t, "key"), Len: rapid.IntRange(0, 9).Draw(t, "len")})
+			op := COp{K: k, Slot: s, Key: rapid.IntRange(0, nk-1).Draw(t, "key"), Len: rapid.IntRange(0, 9).Draw(t, "len")}
+			if late[s] || rapid.IntRange(0, 3).Draw(t, "lateWrite") == 0 {
+				c.Clients[s-1] = append(c.Clients[s-1], op)
+			} else {
+				c.Prologue = append(c.Prologue, op)
+			}
 		}
 	}
 	for s := 1; s <= ntx; s++ {
-		script := []COp{}
-		if rapid.IntRange(0, 3).Draw(t, "lateWrite") == 0 {
-			script = append(script, COp{K: "set", Slot: s, Key: rapid.IntRange(0, nk-1).Draw(t, "key"), Len: 1})
-		}
-		script = append(script, COp{K: "commit", Slot: s})
-		c.Clients = append(c.Clients, script)
+		c.Clients[s-1] = append(c.Clients[s-1], COp{K: "commit", Slot: s})
 	}
-	if rapid.IntRange(0, 2).Draw(t, "autoWriter") == 0 {
-		c.Clients = append(c.Clients, []COp{{K: "set", Key: rapid.IntRange(0, nk-1).Draw(t, "key"), Len: 2}})
+	if rapid.IntRange(0, 1).Draw(t, "autoWriter") == 0 {
+		var w []COp
+		for n := rapid.IntRange(1, 2).Draw(t, "awrites"); n > 0; n-- {
+			w = append(w, COp{K: "set", Key: rapid.IntRange(0, nk-1).Draw(t, "key"), Len: 2})
+		}
+		c.Clients = append(c.Clients, w)
 	}
 	c.Sched = genSchedule(t, 160)
 	return c
